@@ -92,6 +92,12 @@ def after_earlier_calls(n, n0=None):
     b0 = sym_bytes("b0", n if n0 is None else n0)
     encode_number(m0)
     decode_number(b0)
+    # ... including calls that failed: far beyond the range (ValueError), negative
+    bad = sym_int("bad", P4, None)
+    try:
+        encode_number(bad)
+    except ValueError:
+        pass
     m = sym_int("n", 0, P4 - 1)
     b = encode_number(m)
     check(decode_number(b) == m, "after earlier calls: decode(encode(n)) == n")
